@@ -94,3 +94,19 @@ def c_case(case: Dict[str, Any], prefix: str, alphabet, xorder, M) -> str:
         f"Definition {prefix}_run (fuel : nat) : cres := perform_compile fuel {prefix}_env {prefix}_universe {prefix}_inputs "
         f"{prefix}_constraints {'true' if case['remove_constraints'] else 'false'} {'true' if case['allow_pre'] else 'false'} {md}.")
     return "\n".join(out)
+
+
+def c_gops(pyops: List[Any], U) -> str:
+    """History.pyops -> list gop term"""
+    out = []
+    for op in pyops:
+        if op[0] == "A":
+            _, nm, md, src, reason = op
+            mdt = "None" if md is None else "(Some " + c_dist(md.name, None if md.version is None else str(md.version), list(md.reqs), bool(md.meta), U) + ")"
+            out.append("(OpAdd {} {} {} {})".format(c_str(nm), mdt, c_opt(None if src is None else c_str(src)),
+                                                   "None" if reason is None else "(Some " + c_req(reason) + ")"))
+        elif op[0] == "I":
+            out.append(f"(OpInvalidate {c_str(op[1])})")
+        else:
+            out.append(f"(OpRemove {c_str(op[1])})")
+    return c_list(out)
